@@ -5,7 +5,7 @@ from mgrbase import MgrBase, rand_bits
 class C14(MgrBase):
     id = "C14"
     proof_target = "Props/C14.vo"
-    theorems = ["C14_bitfield_bound", "C14_rotation_bound", "C14_slots_interested", "C14_rate_order", "C14_map_exact", "C14_messages_follow_map", "C14_timer_wrapper", "C14_timer_tick_quiet", "C14_timer_tick_bound", "C14_rate_uploads_counted", "C14_rate_block_counted", "C14_rate_task_block_counted", "C14_rate_no_upload_without_request", "C14_rate_refused_block", "C14_rate_reports_exact"]
+    theorems = ["C14_bitfield_bound", "C14_rotation_bound", "C14_slots_interested", "C14_rate_order", "C14_map_exact", "C14_messages_follow_map", "C14_timer_wrapper", "C14_timer_tick_quiet", "C14_timer_tick_bound", "C14_timer_tick_is_rotation", "C14_rate_uploads_counted", "C14_rate_block_counted", "C14_rate_task_block_counted", "C14_rate_no_upload_without_request", "C14_rate_refused_block", "C14_rate_reports_exact"]
     coq_header = ("From Rdest Require Import Base Consts Wire Manager Corr.Mgr.\nOpen Scope N_scope.\n"
                   "Definition codes := codes14.\n")
     rule = ("histories of 0-25 peers: handshakes and bitfield arrivals (each may unchoke the newcomer), interest changes, "
